@@ -125,6 +125,23 @@ func init() {
 		// third generation: := with a composite literal first and a plain value second, parallel assignment through calls
 		{"c2, k2 := R{N: a}, b\nb = c2.N + k2", "c2 k2", true}, {"a, b = two(b), two(a)", "", true}, {"a, b = b, two(a)", "", false},
 		{"r, b = R{N: b}, r.N", "", false}, {"a, b = func() (x, y int) {\nx, y = a, b\nreturn x + y, x - y\n}()", "", false},
+		// fourth generation: declarations WITHOUT initialiser (1 to 4 names, scalar / string / struct / array / slice / pointer
+		// / map / func types) whose variables are accumulated into: each execution of the declaration (loop bodies, backward
+		// goto, closures called twice) must start again from the zero value
+		{"var u1 int\nu1 += a\nb += u1", "u1", false},
+		{"var u1, u2 int\nu2 += a\nu1++\nb += u1 + u2*2", "u1 u2", false},
+		{"var u1, u2, u3 int\nu3 += a\nu1++\nu2 += 2\nb += u1 + u2*2 + u3*3", "u1 u2 u3", true},
+		{"var u1, u2, u3, u4 int\nu4 += b\nu2 -= a\nu1++\nu3 += u4\na = u1 + u2 + u3 + u4", "u1 u2 u3 u4", false},
+		{"var su, sv, sw string\nsw += \"x\"\nsu += sw\nb += len(su) + len(sv)*10 + len(sw)*100", "su sv sw", false},
+		{"var ra, rb, rc R\nrc.N += a\nrb.A[1]++\nra.S = append(ra.S, b)\nb += ra.N + rb.A[1]*2 + rc.N*3 + len(ra.S)", "ra rb rc", false},
+		{"var aa, ab, ac [2]int\nac[0] += a\nab[1]++\naa[0] += ab[1]\nb += aa[0] + ab[1]*2 + ac[0]*3", "aa ab ac", false},
+		{"var sa, sb, sc []int\nsc = append(sc, a)\nsa = append(sa, len(sc))\nb += len(sa) + len(sb)*10 + len(sc)*100 + sa[0]", "sa sb sc", false},
+		{"var pa, pb, pc *int\nif pc == nil {\npc = &a\nb++\n}\nif pa == nil && pb == nil {\npa = pc\nb += 2\n}", "pa pb pc", false},
+		{"var ma, mb, mc map[string]int\nif mc == nil {\nmc = map[string]int{\"x\": a}\nb++\n}\nb += len(ma) + len(mb) + mc[\"x\"]", "ma mb mc", false},
+		{"var fa, fb, fc func() int\nif fc == nil {\nfc = func() int { return a }\nb++\n}\nif fa == nil && fb == nil {\nb += fc()\n}", "fa fb fc", false},
+		{"var ia, ib, ic interface{}\nif ic == nil {\nic = a\nb++\n}\nif ia == nil && ib == nil {\nb += ic.(int)\n}", "ia ib ic", false},
+		{"var (\nu1, u2 int\nu3 string\n)\nu3 += \"y\"\nu2 += a\nu1++\nb += u1 + u2 + len(u3)", "u1 u2 u3", false},
+		{"var u1, u2, u3 int = a, b, 0\nu3 += u1\nb += u2 + u3", "u1 u2 u3", false},
 		// the empty payload: a program "a C/_ = a" fails exactly when the context C alone misbehaves
 		{"_ = a", "", true},
 	}
